@@ -129,3 +129,26 @@ def load_known_findings():
         if m:
             out[(m.group(1), m.group(2))] = m.group(3)
     return out
+
+
+def armed_group_obligations(rule, sites, groups, props_of=None):
+    """Armed-rule semantics that is insensitive to statement order and to expression text: sites are grouped by
+    (function, kind, object) = `idbase`; the table freezes how many sites of each group the engine proved on the
+    reviewed tree; a group with fewer proved sites now is a violation (reported at its first unproved site)."""
+    by = {}
+    for s in sites:
+        by.setdefault(s["idbase"], []).append(s)
+    obs = []
+    for g, need in sorted(groups.items()):
+        ss = by.get(g)
+        if not ss:
+            continue        # the construct changed shape; the instance floor decides whether too many vanished
+        good = [s for s in ss if s["proved"] is True]
+        bad = [s for s in ss if s["proved"] is not True]
+        ok = len(good) >= need
+        rep = (bad[0] if (bad and not ok) else ss[0])
+        detail = ("%d of %d site(s) proved (armed: %d)" % (len(good), len(ss), need)) + \
+                 ("; " + good[0]["detail"] if ok and good else "") + \
+                 ("".join("; NOT proved at %s: %s" % (s["loc"], s["detail"]) for s in bad[:3]) if not ok else "")
+        obs.append(Obligation(rule, g, rep["loc"], rep["fn"], rep["text"], ok, detail, props=(props_of(rep) if props_of else rep.get("props"))))
+    return obs
